@@ -277,13 +277,24 @@ theorem uniqWb_wf {wb : Workbook} (h : WF wb) : WF (uniqWb wb) :=
     rw [h.input i hi]; simp⟩
 
 open EngineInst in
+theorem semV_local (specs : List Spec) : Local (uniqWb (mkWb specs)) (semV specs) := by
+  intro i e e' h
+  have h' : ∀ j, j ∈ (mkWb specs).deps i → e j = e' j := fun j hj => h j (List.mem_eraseDups.2 hj)
+  unfold semV
+  split
+  · next a b heq =>
+    have hd : (mkWb specs).deps i = [a, b] := by simp [mkWb, heq, Spec.deps, Fml.refs]
+    rw [h' a (by rw [hd]; simp), h' b (by rw [hd]; simp)]
+  · exact sem_local specs i e e' h'
+
+open EngineInst in
 theorem semTot_local (specs : List Spec) (raises : Nat → Option (Fail × Val)) :
     Local (uniqWb (mkWb specs)) (semTot specs raises) := by
   intro i e e' h
   unfold semTot
   cases raises i with
   | some p => rfl
-  | none => exact sem_local specs i e e' (fun j hj => h j (List.mem_eraseDups.2 hj))
+  | none => exact semV_local specs i e e' h
 
 open EngineInst in
 /-- C12_sound for the driver's configuration: a well-formed workbook in the correspondence language without raising
@@ -299,7 +310,7 @@ theorem C12_sound_inst (specs : List Spec) (hwf : wfCheck specs = true) (stored 
     (fun i e e' h => by
       show semG specs (fun _ => none) i e = semG specs (fun _ => none) i e'
       simp only [semG]
-      exact congrArg _ (sem_local specs i e e' (fun j hj => h j (List.mem_eraseDups.2 hj))))
+      exact congrArg _ (semV_local specs i e e' h))
     (fun i e v hv => by
       have : semG specs (fun _ => none) i e = .ok v := hv
       simp only [semG] at this; cases this; rfl)
